@@ -613,6 +613,7 @@ fn lax_net_slice(base: &[u8], n: &Option<LaxNetSlice>) -> String {
 }
 
 fn udp_slice_str(base: &[u8], u: &UdpSlice) -> String {
+    crate::guard::observe(&format!("udp_ck={:?}", u.to_header().calc_checksum_ipv4_raw([1, 2, 3, 4], [5, 6, 7, 8], u.payload()).ok()));
     let h = u.to_header();
     let mism = h.source_port != u.source_port()
         || h.length != u.length()
@@ -633,6 +634,12 @@ fn udp_slice_str(base: &[u8], u: &UdpSlice) -> String {
 }
 
 fn tcp_slice_str(base: &[u8], t: &TcpSlice) -> String {
+    // sums over the decoded bytes: a function of the bytes, wherever they lie
+    crate::guard::observe(&format!(
+        "tcp_ck={:?}/{:?}",
+        t.calc_checksum_ipv4([1, 2, 3, 4], [5, 6, 7, 8]).ok(),
+        t.calc_checksum_ipv6([0x11; 16], [0x22; 16]).ok()
+    ));
     let h = t.to_header();
     let mism = tcp_hdr_fields(&h) != tcp_slice_fields(t) || h.options.as_slice() != t.options() || win(base, t.header_slice()) != format!("({},{})", off(base, t.slice()), t.header_len());
     // drive the options iterator (bounded) - its items are the subject of C13
@@ -655,6 +662,7 @@ fn tcp_slice_str(base: &[u8], t: &TcpSlice) -> String {
 }
 
 fn icmp4_slice_str(base: &[u8], i: &Icmpv4Slice) -> String {
+    crate::guard::observe(&format!("icmp4_ck={}", i.header().icmp_type.calc_checksum(i.payload())));
     let h = i.header();
     // the typed header has to be a reading of the same type/code octets
     let hb = h.to_bytes();
@@ -673,6 +681,7 @@ fn icmp4_slice_str(base: &[u8], i: &Icmpv4Slice) -> String {
 }
 
 fn icmp6_slice_str(base: &[u8], i: &Icmpv6Slice) -> String {
+    crate::guard::observe(&format!("icmp6_valid={}", i.is_checksum_valid([0x11; 16], [0x22; 16])));
     let h = i.header();
     let hb = h.to_bytes();
     let mism = h.header_len() > i.slice().len().max(8) + 32
